@@ -1327,6 +1327,8 @@ class HSM2Dongle:
         try:
             # RLP payload size for merge mining hash
             mm_payload_size = rlp_mm_payload_size(block)
+            if mm_payload_size > 0xFFFF:
+                raise ValueError("MM payload length too big: %d" % mm_payload_size)
             self.logger.debug(
                 "%s metadata: MM payload length %d",
                 header_name.capitalize(),
